@@ -11,6 +11,7 @@
 import Fca.Model.LatticeQuery
 import Fca.Spec.LatticeQuery
 import Fca.Lemmas.LatticeQueryLabels
+import Fca.Lemmas.LatticeQueryC04
 namespace Fca.C04
 open Fca Fca.LQ Fca.Spec
 
@@ -170,5 +171,45 @@ theorem labels_by_name_agree (t : Table) (cs : Lat) (H : IsConceptList t cs)
       exact ⟨j, hj, hx⟩
     · rintro ⟨j, hj, hx⟩
       exact ⟨j, hj, a, hx, rfl⟩
+
+/-- the checker the harness applies to the IMPLEMENTATION's labels and ancestor sets is a verified oracle:
+    it answers `true` exactly when (1) every object labels exactly one node, (2) every attribute labels exactly
+    one node (labels in range), and (3) `table[g][a] ⇔ node(g) = node(a) ∨ node(a) ∈ anc[node(g)]` — i.e. the
+    statements of `object_label_unique`, `attribute_label_unique`, `table_reconstructed` for the given lists. -/
+theorem holdsC04_iff (t : Table) (newExt newInt anc : List (List Nat)) :
+    Spec.holdsC04 t newExt newInt anc = true ↔ C04Holds t newExt newInt anc :=
+  LQ.holdsC04_iff t newExt newInt anc
+
+/-- the model's labels and ancestor sets satisfy the three statements, hence the checker accepts them -/
+theorem model_holdsC04 (t : Table) (cs : Lat) (H : IsConceptList t cs)
+    (ord : List Nat → List Nat) (ho : PQ.IsOrder ord) :
+    Spec.holdsC04 t ((List.range cs.length).map (newExtentI cs ord))
+      ((List.range cs.length).map (newIntentI cs ord)) ((List.range cs.length).map (ancestors cs)) = true := by
+  rw [holdsC04_iff]
+  have hget : ∀ (f : Nat → List Nat) i, i < cs.length → ((List.range cs.length).map f).getD i [] = f i := by
+    intro f i hi
+    simp [List.getD_eq_getElem?_getD, List.getElem?_map, List.getElem?_range hi]
+  unfold C04Holds
+  simp only [List.length_map, List.length_range, true_and]
+  refine ⟨?_, ?_, ?_, ?_⟩
+  · intro g hg
+    obtain ⟨k, hk, _, hu⟩ := object_label_unique t cs H ord ho g hg
+    refine ⟨k, hk, by rw [hget _ k hk]; exact (hu k hk).mpr rfl, ?_⟩
+    intro i' hi' h
+    rw [hget _ i' hi'] at h
+    exact (hu i' hi').mp h
+  · intro a ha
+    obtain ⟨k, hk, _, _, hu⟩ := attribute_label_unique t cs H ord ho a ha
+    refine ⟨k, hk, by rw [hget _ k hk]; exact (hu k hk).mpr rfl, ?_⟩
+    intro j' hj' h
+    rw [hget _ j' hj'] at h
+    exact (hu j' hj').mp h
+  · intro i hi
+    rw [hget _ i hi, hget _ i hi]
+    exact ⟨fun g hg => H.ext_lt hi g (mem_newExtentI.mp hg).1, fun a ha => H.int_lt hi a (mem_newIntentI.mp ha).1⟩
+  · intro g a i j hg ha hi hj hgi haj
+    rw [hget _ i hi] at hgi ⊢
+    rw [hget _ j hj] at haj
+    exact (table_reconstructed t cs H ord ho g a hg ha i j hi hj hgi haj).2
 
 end Fca.C04
